@@ -10,6 +10,7 @@ package main
 import (
 	"bufio"
 	"fmt"
+	"github.com/tableauio/tableau/log"
 	"math/rand"
 	"os"
 	"runtime/debug"
@@ -64,7 +65,19 @@ func main() {
 		}
 		seed, _ := strconv.ParseInt(os.Args[3], 10, 64)
 		n, _ := strconv.Atoi(os.Args[4])
-		w := bufio.NewWriterSize(os.Stdout, 1<<20)
+		// generators that consult the code under test (validity filters) must not let its logging into the op stream
+		_ = log.Init(quietLog)
+		gfd, err := syscall.Dup(1)
+		if err != nil {
+			panic(err)
+		}
+		devnull, err := os.OpenFile(os.DevNull, os.O_WRONLY, 0)
+		if err != nil {
+			panic(err)
+		}
+		syscall.Dup2(int(devnull.Fd()), 1)
+		os.Stdout = devnull
+		w := bufio.NewWriterSize(os.NewFile(uintptr(gfd), "gen-out"), 1<<20)
 		defer w.Flush()
 		r := rand.New(rand.NewSource(seed))
 		s.gen(r, n, func(fn string, args ...string) {
